@@ -6,7 +6,8 @@ ID = "C02"
 LEAN_MODULES = ["KaVerif.Props.C02"]
 GEN = []
 THEOREMS = ["KaVerif.C02_roundtrip", "KaVerif.C02_redundant_parens", "KaVerif.C02_min_eq_full",
-            "KaVerif.C02_assign_vs_compare", "KaVerif.C02_kwarg"]
+            "KaVerif.C02_assign_vs_compare", "KaVerif.C02_assign_only_at_statement_start", "KaVerif.C02_kwarg",
+            "KaVerif.C02_kwarg_before_positional_rejected", "KaVerif.C02_wf_iff_parsed"]
 RULE = ("random program trees (every operator at every operand position: + - ± * / % ^ .. sign ! comparisons(1-2) to "
         "units calls(kwargs) arrays comprehensions intervals strings instants assignment ;), depth<=6 quick / <=9 thorough, "
         "each rendered with minimal / full / random-redundant parentheses (and with backward comparison operators) and random "
@@ -652,19 +653,19 @@ def check(ctx):
 
     # 3. random programs
     maxd = ctx.n(6, 9)
-    for _ in range(ctx.n(700, 12000)):
+    for _ in range(ctx.n(700, 6000)):
         prog = gen_program(rng, rng.randrange(1, maxd + 1))
         run_tree(prog, "random/ops=%d" % min(n_ops(prog), 12))
 
     # 4. closed arithmetic trees: same value under every rendering
-    for _ in range(ctx.n(250, 4000)):
+    for _ in range(ctx.n(250, 2000)):
         t = gen_arith(rng, rng.randrange(1, 5))
         run_tree(("stmts", [t]), "arith", variants=("min", "full", "rand", "flip"), evaluate=True)
 
     # 5. token soup: the error index must agree with the model
     soup_cases = []
     base_texts = [c[2]["text"] for c in parse_cases[:: max(1, len(parse_cases) // 400)]]
-    for i in range(ctx.n(1500, 25000)):
+    for i in range(ctx.n(1500, 12000)):
         if i % 2 == 0 or not base_texts:
             ws = [rng.choice(SOUP) for _ in range(rng.randrange(1, 13))]
         else:
